@@ -38,7 +38,7 @@ def classify(pid, d):
 
 CLASSIFIERS = {}
 
-ALL_EXTRACTORS = ["Basic", "Message", "Conversion", "Session", "Service", "SigGrammar", "Value", "Reader", "Encoding", "GenReaders", "Endpoint", "Stream", "Client", "Queues"]
+ALL_EXTRACTORS = ["Basic", "Message", "Conversion", "Session", "Service", "SigGrammar", "Value", "Reader", "Encoding", "GenReaders", "Endpoint", "Stream", "Client", "Queues", "Auth"]
 
 
 def lean_string_list(path, name):
@@ -241,6 +241,26 @@ PROPS = {
             "a blocked Write returns when the transport reports the loss (the harness lets every Write return)",
             "wall-clock bounds are observed (10 s ceiling per storm, 3 s per scripted step), not proved",
             "a subscriber that stops reading its events channel is outside the statement",
+        ],
+        "timeout": {"quick": 600, "thorough": 3000},
+    },
+    "C06": {
+        "level": "proof",
+        "extract": ["Auth"],
+        "rule": "a real StandAloneServer (authenticator: dictionary / Yes / No; two probe services counting invocations) on "
+                "harness-owned in-memory connections (1-3 per round); raw frames of every message type (incl. unknown type "
+                "bytes) x service 0 / probe / unknown services x objects x actions; authenticate payloads from a grammar "
+                "(accepted credentials in 5 shapes incl. absent token, duplicate keys, trailing bytes; rejected: wrong token, "
+                "unknown user, forged __qi_auth_state with and without credentials, wrongly typed user/token, duplicate "
+                "with last losing, oversized count, truncated, count too large, random bytes, empty, key case variants); "
+                "one frame at a time to quiescence, the peer-visible outcome and the probe invocation count compared with "
+                "the gate machine; bursts of 20-80 frames without accepted credentials while another connection is "
+                "authenticated: no probe may be invoked",
+        "assumptions": [
+            "the authenticator is an arbitrary function of user and token (theorem); three are exercised",
+            "queue overflow (more than 10 unprocessed frames) only drops frames: ignored by the model, harmless for the gate",
+            "the capability map is read and written by the connection goroutine and the service-0 mailbox goroutine without "
+            "synchronisation (a data race in Go's memory model): the model interleaves them atomically",
         ],
         "timeout": {"quick": 600, "thorough": 3000},
     },
